@@ -327,6 +327,7 @@ func (e *EndpointIndex) UpdateServiceEndpoints(
 		pushType = FullPush
 	}
 
+	verifGate("eps.update.afterLookup")
 	ep.Lock()
 	defer ep.Unlock()
 	oldIstioEndpoints := ep.Shards[shard]
